@@ -7,12 +7,14 @@ PROP = {
         "Render as Display, Part::{text_ref, hole_ref, with_formatter, write}, Write for fmt::Formatter}",
         "alloc: Template::to_owned, Part::to_owned, the Owned representation (hk_emit_std: c16_q_owned_renders_like_borrowed)",
     ],
-    "bounds": "templates of <= 3 parts; text of <= 3 characters over {a, b, U+00E9} split at symbolic character "
+    "bounds": "quick: equality 2x2 parts (<= 2 chars per fragment), 3x2 parts (<= 1 char), literal vs 3 parts; render protocol for <= 2 parts; Display rendering of <= 2 parts without values; owned vs borrowed (4 concrete parts, symbolic formatters). thorough adds 2x3, 3x3, symmetric, reflexive, transitive, by_ref and 3-part protocol. Overall: templates of <= 3 parts; text of <= 3 characters over {a, b, U+00E9} split at symbolic character "
               "boundaries (empty fragments allowed); hole labels from {x, y, empty}; <= 2 properties with keys from the "
               "label pool (duplicates allowed); emit_core built with no features (Literal and Parts representations)",
     "outside": "templates with more than 3 parts (4 concrete parts for the Owned representation); macro-generated templates (tpl!) "
                "beyond what the API-built equivalents cover; number formatting inside hole formatters",
     "stubs": [],
     "assumptions": ["text fragments are valid UTF-8 split at character boundaries"],
+    # the equality harnesses need 9-12 GB resident each (measured): at most 4 at once
+    "max_jobs": 4,
     "timeout": {"quick": 800, "thorough": 3600},
 }
